@@ -204,6 +204,126 @@ theorem splitLaw_psl (lines : List Str) (n : Str) (hwf : wfNetloc n = true)
       have := pslSplit_rejoin lines _ d s (by rw [lower_idem]; exact head_lower hhead) hds
       rw [this, C08.hostStr, lower_idem, rstrip_dot_id (getLast_lower hlast)]
 
+/-! ## what else holds of `pslSplit` without any hypothesis -/
+
+theorem mem_join_c13 {sep : Str} {L : List Str} {c : Char} (h : c ∈ join sep L) :
+    c ∈ sep ∨ ∃ p ∈ L, c ∈ p := by
+  induction L with
+  | nil => simp [join] at h
+  | cons a rest ih =>
+    cases rest with
+    | nil => exact Or.inr ⟨a, by simp, by simpa [join] using h⟩
+    | cons b r =>
+      simp only [join, List.mem_append] at h
+      rcases h with (h | h) | h
+      · exact Or.inr ⟨a, by simp, h⟩
+      · exact Or.inl h
+      · rcases ih h with h' | ⟨p, hp, hx⟩
+        · exact Or.inl h'
+        · exact Or.inr ⟨p, List.mem_cons_of_mem _ hp, hx⟩
+
+theorem mem_join_of_mem_c13 (sep : Str) {L : List Str} {p : Str} (hp : p ∈ L) {c : Char}
+    (hc : c ∈ p) : c ∈ join sep L := by
+  induction L with
+  | nil => cases hp
+  | cons a rest ih =>
+    cases rest with
+    | nil =>
+      simp only [List.mem_singleton] at hp
+      subst hp; simpa [join] using hc
+    | cons b r =>
+      simp only [join, List.mem_append]
+      rcases List.mem_cons.mp hp with e | e
+      · subst e; exact Or.inl (Or.inl hc)
+      · exact Or.inr (ih e)
+
+theorem mem_of_mem_rstripChars {s : Str} {cs : List Char} {c : Char} (h : c ∈ rstripChars s cs) :
+    c ∈ s := by
+  unfold rstripChars at h
+  rw [List.mem_reverse] at h
+  exact List.mem_reverse.mp ((List.dropWhile_suffix _).subset h)
+
+/-- the labels the walk sees are made of characters of the lower-cased hostname -/
+theorem mem_hostParts {hn p : Str} (hp : p ∈ SuffixTrie.hostParts hn) {c : Char} (hc : c ∈ p) :
+    c ∈ lower hn := by
+  unfold SuffixTrie.hostParts at hp
+  have := mem_join_of_mem_c13 ['.'] hp hc
+  rw [join_splitOn_c08] at this
+  exact mem_of_mem_rstripChars this
+
+/-- **the two parts `pslSplit` returns are made of dots and of characters of the lower-cased
+hostname** — every line list, every hostname -/
+theorem mem_pslSplit (lines : List Str) (hn d s : Str) (h : pslSplit lines hn = some (d, s))
+    {c : Char} (hc : c ∈ d ∨ c ∈ s) : c = '.' ∨ c ∈ lower hn := by
+  rw [pslSplit_spec] at h
+  cases hl : C08.hostLen lines hn with
+  | none => simp [hl] at h
+  | some n =>
+    simp only [hl, Option.map_some, Option.some.injEq, Prod.mk.injEq] at h
+    obtain ⟨hd, hs⟩ := h
+    have key : ∀ L : List Str, (∀ p ∈ L, p ∈ SuffixTrie.hostParts hn) →
+        c ∈ join SuffixTrie.dot L → c = '.' ∨ c ∈ lower hn := by
+      intro L hL hm
+      rcases mem_join_c13 hm with h | ⟨p, hp, hcp⟩
+      · left; simpa [SuffixTrie.dot] using h
+      · right; exact mem_hostParts (hL p hp) hcp
+    rcases hc with hc | hc
+    · rw [← hd] at hc; exact key _ (fun p hp => List.mem_of_mem_take hp) hc
+    · rw [← hs] at hc; exact key _ (fun p hp => List.mem_of_mem_drop hp) hc
+
+/-- what `splitSuffixParsed` hands over when it answers -/
+theorem splitSuffixParsed_some {sp : Str → Option (Str × Str)} {n d s : Str}
+    (h : splitSuffixParsed sp n = some (d, s)) : sp (pyHostname n) = some (d, s) := by
+  unfold splitSuffixParsed at h
+  simp only at h
+  split at h
+  · cases h
+  · split at h
+    · cases h
+    · exact h
+
+/-- **no `|` in the netloc, no `|` in the two parts of the public-suffix split** — for the model
+of suffix_trie.py nothing has to be assumed (any netloc, any suffix list; trailing dots, leading
+dots, `%` included) -/
+theorem split_nobar_psl (lines : List Str) {n : Str} (hb : '|' ∉ n) :
+    ∀ d s, splitSuffixParsed (pslSplit lines) n = some (d, s) → '|' ∉ d ∧ '|' ∉ s := by
+  intro d s hds
+  have h := splitSuffixParsed_some hds
+  have key : ∀ {c : Char}, c = '|' → (c ∈ d ∨ c ∈ s) → False := by
+    intro c e hc
+    subst e
+    rcases mem_pslSplit lines _ d s h hc with h1 | h1
+    · revert h1; decide
+    · exact hb (Ural.LruString.mem_pyHostname (by decide) (by decide)
+        (mem_of_mem_lower (by decide) h1))
+  exact ⟨fun hm => key rfl (Or.inl hm), fun hm => key rfl (Or.inr hm)⟩
+
+/-- `pslSplit` looks at the lower-cased hostname only -/
+theorem pslSplit_lower_congr (lines : List Str) {a b : Str} (e : lower a = lower b) :
+    pslSplit lines a = pslSplit lines b := by
+  have hp : SuffixTrie.hostParts a = SuffixTrie.hostParts b := by
+    unfold SuffixTrie.hostParts; rw [e]
+  simp only [pslSplit, pslSplitT, splitOfLen, hostLenT, hp]
+
+/-- **C08's case clause for the model of suffix_trie.py**: the hypothesis `SplitCaseInv` of the
+C12 fixed-point theorem (plain hosts with `%`) holds for `pslSplit lines` on every netloc -/
+theorem splitCaseInv_psl (lines : List Str) (n : Str) : SplitCaseInv (pslSplit lines) n := by
+  intro h' e _ _
+  exact pslSplit_lower_congr lines e
+
+/-- **C08's re-join clause for the model of suffix_trie.py, `%` allowed**: `SplitLaw` holds on
+every plain host (no `:[]`) that neither starts nor ends with a dot (generalises `splitLaw_psl`:
+`dnsName` also excludes `%`) -/
+theorem splitLaw_psl_plain (lines : List Str) (n : Str) (hwf : wfNetloc n = true)
+    (hp : Plain (specHost n)) (hhead : (specHost n).head? ≠ some '.')
+    (hlast : (specHost n).getLast? ≠ some '.') : SplitLaw (pslSplit lines) n := by
+  intro d s hds
+  rw [hostSplit_plain _ hp] at hds
+  have h := splitSuffixParsed_some hds
+  have hl := lower_pyHostname_plain hwf hp
+  have := pslSplit_rejoin lines _ d s (by rw [hl]; exact head_lower hhead) h
+  rw [this, C08.hostStr, hl, rstrip_dot_id (getLast_lower hlast)]
+
 /-! ## the public suffix of a subdomain -/
 
 /-- **the public suffix of a subdomain that does not swallow the parent domain is the parent's**
